@@ -422,7 +422,7 @@ def main(tier, replay=None):
     # input must not buy hours of computation
     huge = ['1000000000', '999999999999', '10^30', '-1000000000', '2^62']
     for name in names:
-        for h in (huge if not quick else huge[:1] + [huge[(len(name)) % 4 + 1]]):
+        for h in (huge if not quick else [huge[0], huge[3], huge[(len(name)) % 4 + 1]]):
             texts += ['%s(%s)' % (name, h), '%s(2,%s)' % (name, h), '%s(%s,2)' % (name, h), '%s(2,3,%s)' % (name, h)]
     texts += ['9^999999999', '2^99999999', '10^400', '7^77777', '99^9999999', '1^999999999999', '0^0', '2^3^999999999',
               '999999999%', '10^30*10^30', '"a"&10^400', '-9^999999999', '(2^99999999)=1']
